@@ -294,3 +294,46 @@ def given_weights_nonnegative(prog: Program, rep, RID: str, classes: List[str]):
             rep.violation(RID, key, f"{cname} accepts negative entries in solution_weights_superset and copies them into the solution: on s->a->t with flow 5 and the superset "
                           "[-2, 7] the model reports solved with the path weights [-2, 7] (the weight variables of the ordinary encoding have lower bound 0; with a superset "
                           "there are none)", init.loc())
+
+
+def given_weights_above_coefficient_threshold(prog: Program, rep, RID: str, classes: List[str]):
+    """The entries of solution_weights_superset are matrix coefficients of the given-weights rows.  HiGHS refuses a row with a non-zero coefficient of
+    magnitude <= 1e-9 (highspy raises on the warning), so an entry in (0, 1e-9] - the 3e-14 a float model publishes for an unused path - makes the constructor
+    raise a bare Exception.  The constructor replaces such entries by 0 before the rows are built."""
+    for cname in classes:
+        init = prog.own_method(cname, "__init__")
+        key = f"{cname}.__init__:given-weights-coefficient-threshold"
+        uses = [m for m in prog.cls(cname).methods.values() for n in ast.walk(m.node)
+                if isinstance(n, ast.BinOp) and isinstance(n.op, ast.Mult) and any(norm(x).startswith("self.solution_weights_superset[") for x in (n.left, n.right))]
+        if not uses:
+            raise AnalysisError(f"{cname}: no row multiplies a variable by an entry of solution_weights_superset")
+        norms = [st for st in ast.walk(init.node) if isinstance(st, ast.Assign) and any(norm(t) == "self.solution_weights_superset" for t in st.targets) and
+                 isinstance(st.value, (ast.ListComp, ast.GeneratorExp, ast.Call))]
+        ok = None
+        for st in norms:
+            v = st.value
+            if isinstance(v, ast.Call) and dotted(v.func) in ("list", "tuple") and len(v.args) == 1:
+                v = v.args[0]
+            if not isinstance(v, (ast.ListComp, ast.GeneratorExp)) or len(v.generators) != 1 or norm(v.generators[0].iter) not in ("self.solution_weights_superset", "solution_weights_superset"):
+                continue
+            if v.generators[0].ifs:
+                raise AnalysisError(f"{cname}.__init__: solution_weights_superset is filtered (`{norm(st)[:80]}`): not recognised")
+            e = v.elt
+            w = norm(v.generators[0].target)
+            if isinstance(e, ast.IfExp) and isinstance(e.test, ast.Compare) and len(e.test.ops) == 1:
+                l_, o_, r_ = e.test.left, e.test.ops[0], e.test.comparators[0]
+                thr = None
+                if norm(l_) == w and isinstance(o_, ast.Gt) and isinstance(r_, ast.Constant):
+                    thr, keep, other = r_.value, e.body, e.orelse
+                elif norm(l_) == w and isinstance(o_, ast.LtE) and isinstance(r_, ast.Constant):
+                    thr, keep, other = r_.value, e.orelse, e.body
+                if thr is not None and isinstance(thr, (int, float)) and norm(keep) in (w, f"float({w})") and isinstance(other, ast.Constant) and other.value == 0:
+                    ok = (st, thr)
+        if ok is None:
+            rep.violation(RID, key, f"{cname} builds the given-weights rows from the entries of solution_weights_superset as they come: a positive entry up to 1e-9 (the 3e-14 a "
+                          "float model publishes for an unused path, handed back as the superset) is refused by the solver as a matrix coefficient and the constructor raises "
+                          "a bare Exception('Error adding constraint to the model.') instead of building the model; no store replaces such entries by 0", init.loc())
+        elif ok[1] < 1e-9:
+            rep.violation(RID, key, f"entries above {ok[1]} are kept as coefficients, but the solver refuses non-zero coefficients up to 1e-9", init.loc(ok[0]))
+        else:
+            rep.ok(RID, key, f"entries <= {ok[1]} are replaced by 0 before the rows are built", init.loc(ok[0]))
